@@ -1022,7 +1022,8 @@ pub async fn run_case(cfg: SrvCfg, rng: Rng, max_steps: usize, mode: &str) -> (C
       break;
     }
     // without visible hand-over events the owner oracle is blind: end the history here
-    if !env.ev_ok && !g.mode.starts_with("kf_") && (closed_any || matches!(op, Op::Close(_) | Op::Recv(_, Req::Leave { .. }))) {
+    // (a scripted prologue goes on: it is written so that the successor is the only remaining member)
+    if !env.ev_ok && g.plan.is_empty() && !g.mode.starts_with("kf_") && (closed_any || matches!(op, Op::Close(_) | Op::Recv(_, Req::Leave { .. }))) {
       break;
     }
   }
